@@ -152,6 +152,20 @@ Section Bind.
     | Some rh => verify_block_results rs rh lb
     end.
 
+  (* core.go:347-377 GetTransactionsWithResults: verified transactions, then the
+     Core-level results check, then the conversion of the results
+     (full.TransactionResultsFromCometBFT, abstract: [conv_ok]). *)
+  Definition core_get_transactions_with_results (verify_txs : bverdict) (last_trusted : Z) (rs : results)
+             (next_results_hash : option (option bytes)) (conv_ok : bool) (lb : light_block) : bverdict :=
+    match verify_txs with
+    | BOk =>
+        match core_verify_block_results last_trusted rs next_results_hash lb with
+        | BOk => if conv_ok then BOk else BOther
+        | e => e
+        end
+    | e => e
+    end.
+
   (* ---- transactions ---- *)
   (* core.go:680-691; Data.Hash() = merkle root over the transaction hashes *)
   Definition verify_transactions (txs : list bytes) (lb : light_block) : bverdict :=
@@ -274,7 +288,12 @@ Inductive bquery :=
 | QTxProof (p : option proof) (tx : bytes)
 | QValidators (vs : validators)
 | QParams (pm : parameters) (state_params : option bytes)
-| QStateRoot (txs : list bytes) (m : meta_tx).     (* m: decoding of the last tx *)
+| QStateRoot (txs : list bytes) (m : meta_tx)      (* m: decoding of the last tx *)
+(* the public Core methods over a light client with a preloaded trusted store *)
+| QCoreResults (last_trusted : Z) (rs : results) (next_results_hash : option (option bytes))
+| QCoreTxResults (last_trusted : Z) (txs : list bytes) (rs : results)
+                 (next_results_hash : option (option bytes)) (conv_ok : bool)
+| QCoreStateRoot (lb_next : option light_block) (txs : list bytes) (m : meta_tx).
 
 Definition bcase := (list (bytes * bytes) * light_block * bquery)%type.
 Definition run_bcase (c : bcase) : sr_result :=
@@ -288,4 +307,8 @@ Definition run_bcase (c : bcase) : sr_result :=
   | QValidators vs => SrErr (verify_next_validators Hh vs lb)
   | QParams pm sp => SrErr (verify_parameters Hh pm sp lb)
   | QStateRoot txs m => state_root_from_block_txs (fun _ => m) txs
+  | QCoreResults lt rs nrh => SrErr (core_verify_block_results Hh lt rs nrh lb)
+  | QCoreTxResults lt txs rs nrh ok =>
+      SrErr (core_get_transactions_with_results Hh (verify_transactions Hh txs lb) lt rs nrh ok lb)
+  | QCoreStateRoot n txs m => fetch_state_root Hh (fun _ => m) n lb txs
   end.
